@@ -139,11 +139,12 @@ class RenderNode(Node):
                 args["forloop"] = forloop
                 args[key] = None
 
-                for itm in forloop:
-                    args[key] = itm
-                    template.render_with_context(
-                        ctx, buffer, partial=True, block_scope=True
-                    )
+                with ctx.iterations(len(val)):
+                    for itm in forloop:
+                        args[key] = itm
+                        template.render_with_context(
+                            ctx, buffer, partial=True, block_scope=True
+                        )
             else:
                 # The bound variable is not array-like, shove it into the namespace
                 # via args.
@@ -219,11 +220,12 @@ class RenderNode(Node):
                 args["forloop"] = forloop
                 args[key] = None
 
-                for itm in forloop:
-                    args[key] = itm
-                    await template.render_with_context_async(
-                        ctx, buffer, partial=True, block_scope=True
-                    )
+                with ctx.iterations(len(val)):
+                    for itm in forloop:
+                        args[key] = itm
+                        await template.render_with_context_async(
+                            ctx, buffer, partial=True, block_scope=True
+                        )
             else:
                 # The bound variable is not array-like, shove it into the namespace
                 # via args.
